@@ -165,7 +165,11 @@ pub fn select_all(t: &Tab) -> Select {
 
 /// random SELECT over 1..3 tables drawn from `tabs`
 pub fn rand_select(r: &mut R, tabs: &[Tab], allow_join: bool) -> Select {
-    let nt = if allow_join && tabs.len() > 1 { *pick(r, &[1, 1, 2, 2, 3]) } else { 1 };
+    let mut nt = if allow_join && tabs.len() > 1 { *pick(r, &[1, 1, 2, 2, 3]) } else { 1 };
+    // the reference evaluation of a join in TLC grows with the product of the table sizes (DISTINCT and ORDER BY square it):
+    // histories that let their tables grow (reopen, vac) get narrower joins
+    let rows = tabs.iter().map(|t| t.ids.len() + 3).max().unwrap_or(3);
+    while nt > 1 && rows.pow(nt as u32) > 4000 { nt -= 1; }
     let mut from = vec![];
     let mut scope_items: Vec<(&Tab, String, usize)> = vec![];
     let mut base = 0;
@@ -1037,11 +1041,15 @@ fn seg_vac(run: &mut Runner, r: &mut R, stats: &mut serde_json::Value) {
             11 => {
                 zombied = true;
                 // a session that is open across the VACUUM: it is aborted, keeps being used, and must leave no trace.
-                // It begins right before the VACUUM (a commit in between is the recorded finding ZombieWritesVisibleAfterVacuum)
                 let tj = if tabs[ti].updatable { 1 - ti } else { ti };
                 if !tabs[tj].updatable && run.begin(2).is_ok() {
                     let st = rand_insert(r, &mut tabs[tj], 0, 1, false);
                     run.stmt(2, &st);
+                    // other transactions commit while it is open: its id is then below the last committed one when VACUUM
+                    // forgets it - it must still be refused afterwards (the repaired finding ZombieWritesVisibleAfterVacuum)
+                    if r.random_bool(0.6) {
+                        for _ in 0..r.random_range(1..3) { let s2 = rand_insert(r, &mut tabs[tj], 0, 1, false); if run.auto(&s2).is_ok() { note_insert(&mut tabs[tj], &s2); } }
+                    }
                     run.vacuum();
                     stats["vacuums"] = json!(stats["vacuums"].as_u64().unwrap_or(0) + 1);
                     for _ in 0..r.random_range(1..3) { let st = rand_insert(r, &mut tabs[tj], 0, 1, false); run.zombie_stmt(2, &st); }
@@ -1073,7 +1081,8 @@ pub fn rand_cfg(r: &mut R, small_pages_ok: bool) -> axmosdb::DBConfig {
 
 /// C09: histories split at arbitrary points by flush / close / open with arbitrary configuration values
 fn seg_reopen(run: &mut Runner, r: &mut R, stats: &mut serde_json::Value) {
-    let c0 = rand_cfg(r, true);
+    // now and then a cache size that does not fit 16 bits (the header field that records it is a u16)
+    let c0 = if r.random_range(0..5) == 0 { crate::eng::cfg(4096, *pick(r, &[65536usize, 70000]), 2, 3, 2) } else { rand_cfg(r, true) };
     run.reset(c0);
     let u1 = r.random_bool(0.5);
     let mut tabs: Vec<Tab> = vec![rand_table(r, "t1", u1), rand_table(r, "t2", false)];
@@ -1109,6 +1118,17 @@ fn seg_reopen(run: &mut Runner, r: &mut R, stats: &mut serde_json::Value) {
                 let s = rand_insert(r, &mut t2, 0, 1, false);
                 run.auto(&s);
                 run.auto(&Stmt::Select(select_all(&t2)));
+            }
+            15 if extra_tables == 1 => {
+                // a table goes, an empty one takes its pages, nothing is written into it: after close and open it must still be empty
+                extra_tables += 1;
+                run.auto(&Stmt::Drop("x1".into()));
+                let t = rand_table(r, "x2", false);
+                run.auto(&Stmt::Create(t.def.clone()));
+                if r.random_bool(0.3) { run.flush(); }
+                run.reopen(rand_cfg(r, true));
+                stats["reopens"] = json!(stats["reopens"].as_u64().unwrap_or(0) + 1);
+                run.auto(&Stmt::Select(select_all(&t)));
             }
             12 | 13 | 14 => {
                 let cfg = rand_cfg(r, true);
@@ -1174,6 +1194,32 @@ fn seg_cfg(run: &mut Runner, wseed: u64, cfg: axmosdb::DBConfig, checkpoints: bo
         if checkpoints && i % 9 == 8 { run.flush(); }
     }
     for t in &tabs { run.auto(&Stmt::Select(select_all(t))); }
+    // every other workload: a table of long rows (2.5-3.5 thousand characters, growing with every rewrite because the old value
+    // stays as a version: with small pages each row continues in an overflow chain of several pages), rewritten row by row, at
+    // most twice each (a log record holds the old and the new image and must fit a 40 KiB block: LargeRowExceedsWalBlock) - chains are freed, rebuilt and, under a small cache, written back and
+    // read again in between.  The draws are made for every configuration; caches below 16 pages skip the statements
+    // (finding SmallCacheFailsStatements).
+    if wseed % 2 == 1 {
+        let fat_ok = cfg.cache_size >= 16;
+        let def = TableDef { name: "t3".into(), cols: vec![ColDef { name: "id".into(), ty: Ty::Int, nn: false }, ColDef { name: "c1".into(), ty: Ty::Int, nn: false }, ColDef { name: "c2".into(), ty: Ty::Text, nn: false }], uniq: vec![] };
+        let long = |r: &mut R| -> V { let n = r.random_range(2500..3500); V::Text([*pick(r, &["p", "q", "r"])].repeat(n).concat()) };
+        if fat_ok { run.auto(&Stmt::Create(def.clone())); }
+        let cols = vec![(1usize, "id".to_string()), (2usize, "c1".to_string()), (3usize, "c2".to_string())];
+        for id in 1..=32i64 {
+            let st = Stmt::Insert { tbl: "t3".into(), cols: cols.clone(), rows: vec![vec![V::Int(id), V::Int(r.random_range(-3..12)), long(r)]] };
+            if fat_ok { run.auto(&st); }
+        }
+        let t3 = Tab { def: def.clone(), next_id: 33, ids: (1..=32).collect(), updatable: true, maybe_null: vec![] };
+        let first = r.random_range(0..32i64);
+        for i in 0..56 {
+            let id = (first + 7 * i as i64) % 32 + 1;
+            let idc = col(&t3, "t3", 0, 0);
+            let st = Stmt::Update { tbl: "t3".into(), set: vec![(3, "c2".into(), E::Lit(long(r)))], wher: E::Bin("eq", Box::new(idc), Box::new(E::Lit(V::Int(id)))), has_where: true };
+            if fat_ok { run.auto(&st); }
+            if checkpoints && i % 4 == 3 { run.flush(); }
+        }
+        if fat_ok { run.auto(&Stmt::Select(select_all(&t3))); }
+    }
     stats["configs"] = json!(stats["configs"].as_u64().unwrap_or(0) + 1);
 }
 
@@ -1201,7 +1247,11 @@ fn seg_alter(run: &mut Runner, r: &mut R, stats: &mut serde_json::Value) {
             let to = if was { false } else { !tabs[ti].maybe_null.contains(&ci) };
             if !was && !to { continue; }
             let st = Stmt::AlterNn { tbl: tabs[ti].def.name.clone(), col: (ci + 1, tabs[ti].def.cols[ci].name.clone()), nn: to };
+            // now and then an older transaction is open across the ALTER and reads the table afterwards: it was created before its
+            // snapshot, so it is still there for it, with its rows
+            let older = r.random_bool(0.4) && run.begin(2).is_ok();
             if run.auto(&st).is_ok() { tabs[ti].def.cols[ci].nn = to; }
+            if older { run.stmt(2, &Stmt::Select(select_all(&tabs[ti]))); if r.random_bool(0.5) { run.commit(2); } else { run.rollback(2); } }
             stats["alters"] = json!(stats["alters"].as_u64().unwrap_or(0) + 1);
         } else if c < 60 {
             let s = rand_insert(r, &mut tabs[ti], 0, 1, false);
@@ -1295,7 +1345,13 @@ fn seg_ddl(run: &mut Runner, r: &mut R, stats: &mut serde_json::Value) {
         // other tables are never disturbed; every live table reads back
         run.auto(&Stmt::Select(select_all(&keep)));
         for t in &live { run.auto(&Stmt::Select(select_all(t))); }
-        if counter % 9 == 0 { run.reopen(default_cfg()); stats["reopens"] = json!(stats["reopens"].as_u64().unwrap_or(0) + 1); }
+        // a clean close, or the process dying here (no transaction is open): recovery replays the DDL and DML of the log in their order
+        if counter % 9 == 0 || r.random_range(0..12) == 0 {
+            if r.random_bool(0.5) { run.reopen(default_cfg()); } else { run.crash_reopen(default_cfg()); stats["crash_reopens"] = json!(stats["crash_reopens"].as_u64().unwrap_or(0) + 1); }
+            stats["reopens"] = json!(stats["reopens"].as_u64().unwrap_or(0) + 1);
+            run.auto(&Stmt::Select(select_all(&keep)));
+            for t in &live { run.auto(&Stmt::Select(select_all(t))); }
+        }
     }
     run.reopen(default_cfg());
     run.auto(&Stmt::Select(select_all(&keep)));
@@ -1374,7 +1430,21 @@ fn seg_fuzz(run: &mut Runner, r: &mut R, stats: &mut serde_json::Value) {
         // liveness: more trivial statements than the pool has workers
         for _ in 0..3 { run.auto(&Stmt::Select(select_all(&tabs[r.random_range(0..2)]))); }
     }
-    stats["inputs"] = json!(stats["inputs"].as_u64().unwrap_or(0) + inputs);
+    // a statement that must fail after doing real work: a unique index over a column that holds a duplicate. It has to come back
+    // as an error (not hang on its own half-built tree), leave nothing behind, and the table must stay usable.
+    let t2 = tabs[1].clone();
+    let mut dup = |id: i64, r: &mut R| -> Stmt {
+        let mut row = vec![V::Int(id), V::Int(77)];
+        for c in t2.def.cols.iter().skip(2) { row.push(rand_val(r, &c.ty, false)); }
+        Stmt::Insert { tbl: "t2".into(), cols: t2.def.cols.iter().enumerate().map(|(i, c)| (i + 1, c.name.clone())).collect(), rows: vec![row] }
+    };
+    let (d1, d2, d3) = (dup(9001, r), dup(9002, r), dup(9003, r));
+    run.auto(&d1);
+    run.auto(&d2);
+    run.auto(&Stmt::Index { name: "t2_fz".into(), tbl: "t2".into(), cols: vec![(2, "c1".into())] });
+    run.auto(&d3);
+    run.auto(&Stmt::Select(select_all(&t2)));
+    stats["inputs"] = json!(stats["inputs"].as_u64().unwrap_or(0) + inputs + 1);
 }
 
 pub fn main(a: &Args) -> i32 {
@@ -1404,7 +1474,14 @@ pub fn main(a: &Args) -> i32 {
                 // one workload (seed-determined), several configurations: segment index picks the configuration
                 let mut cr = util::rng(seed / 8, 99);
                 let wseed = seed / 8;
-                let grid: Vec<axmosdb::DBConfig> = (0..8).map(|i| if i == 0 { default_cfg() } else { rand_cfg(&mut cr, true) }).collect();
+                // the default, three fixed small-page / small-cache corners (caches that hold part of the working set: pages are
+                // written back and read again all the time), four drawn at random
+                let grid: Vec<axmosdb::DBConfig> = (0..8).map(|i| match i {
+                    0 => default_cfg(),
+                    1 => crate::eng::cfg(4096, 24, 2, 3, 2),
+                    2 => crate::eng::cfg(4096, 32, 1, 4, 1),
+                    3 => crate::eng::cfg(8192, 16, 2, 3, 3),
+                    _ => rand_cfg(&mut cr, true) }).collect();
                 let c = grid[((seed % 8) as usize + done) % 8];
                 seg_cfg(&mut run, wseed, c, (seed / 8) % 2 == 0, &mut stats);
             }
